@@ -369,6 +369,11 @@ func RaceBodies() int {
 }
 
 func c18RacePass(r *Run) {
+	if os.Getenv("VERIF_SKIP_RACE") == "1" { // measuring tools only (seedtest.py for non-C18 seeds); never set by run.sh
+		r.Note("race pass skipped by VERIF_SKIP_RACE")
+		r.Truncate("race pass skipped by VERIF_SKIP_RACE")
+		return
+	}
 	exe, _ := os.Executable()
 	race := filepath.Join(filepath.Dir(exe), "cctpmc-race")
 	if _, err := os.Stat(race); err != nil {
